@@ -684,7 +684,9 @@ func (c *cluster) onConfigChanged(e *event) {
 		if oldC.Index > e.commit {
 			c.fail("config-safety", "config-before-prev-committed", "leader %d (term %d) appended configuration %d while previous configuration %d is not committed (commit index %d)", e.nid, e.term, newC.Index, oldC.Index, e.commit)
 		}
-		if e.commit < e.a {
+		if e.b == 2 && newC.Index > 1 {
+			c.fail("config-safety", "config-before-own-term-commit", "leader %d (term %d) appended configuration %d although the entry at its commit index %d is not of its own term", e.nid, e.term, newC.Index, e.commit)
+		} else if e.commit < e.a {
 			c.fail("config-safety", "config-before-own-term-commit", "leader %d (term %d) appended configuration %d before committing an entry of its own term (commit index %d, term start %d)", e.nid, e.term, newC.Index, e.commit, e.a)
 		}
 	}
